@@ -25,6 +25,7 @@ def tagP : UInt8 := 0x70
 def tagQ : UInt8 := 0x71
 def tagA : UInt8 := 0x61
 def tagU : UInt8 := 0x75
+def tagS : UInt8 := 0x73
 
 structure Scn where
   lenP : Nat := 0      -- tip height of the responder chain
@@ -34,6 +35,8 @@ structure Scn where
   finQ : Nat := 0
   mhpQ : Nat := 0
   mhpP : Nat := 0
+  cur : Option (List (Blk Bytes)) := none   -- the responder's chain once `chain` ops changed it
+  ctr : Nat := 0                            -- number of `chain new` ops so far
 
 def Scn.pid (_ : Scn) (h : Nat) : Id := mkId tagP h
 def Scn.qid (s : Scn) (h : Nat) : Id := if h ≤ s.fork then mkId tagP h else mkId tagQ h
@@ -53,6 +56,9 @@ def Scn.chainA (s : Scn) (bad : Nat) (static : Bool) : List (Blk Id) :=
   (List.range (s.lenP + 1)).map fun h =>
     { id := aid h, prev := if h = 0 then zero32 else aid (h - 1), height := h, ok := !(static && h == bad) }
 
+/-- the responder's current chain -/
+def Scn.resp (s : Scn) : List (Blk Id) := s.cur.getD s.chainP
+
 def num? (s : String) : Option Nat := s.toNat?
 
 def parseTok (s : Scn) (t : String) : Option Id :=
@@ -61,6 +67,7 @@ def parseTok (s : Scn) (t : String) : Option Id :=
   | 'q' :: r => (String.ofList r).toNat?.map s.qid
   | 'a' :: r => (String.ofList r).toNat?.map (mkId tagA)
   | 'u' :: r => (String.ofList r).toNat?.map (mkId tagU)
+  | 's' :: r => (String.ofList r).toNat?.map (mkId tagS)
   | 'x' :: r => Hex.decode? (String.ofList r)
   | _ => none
 
@@ -76,10 +83,11 @@ def tokOf (s : Scn) (i : Id) : String :=
   match i with
   | tag :: r =>
     let h := dec32 (r.take 4)
-    if i.length == 32 && r.drop 4 == List.replicate 27 0 && (tag == tagP || tag == tagQ || tag == tagA || tag == tagU) then
+    if i.length == 32 && r.drop 4 == List.replicate 27 0 && (tag == tagP || tag == tagQ || tag == tagA || tag == tagU || tag == tagS) then
       if tag == tagP then "p" ++ toString h
       else if tag == tagQ then (if h ≤ s.fork then "x" ++ Hex.encode i else "q" ++ toString h)
       else if tag == tagA then "a" ++ toString h
+      else if tag == tagS then "s" ++ toString h
       else "u" ++ toString h
     else "x" ++ Hex.encode i
   | [] => "x-"
@@ -158,6 +166,8 @@ structure Behav where
   target : Option Nat := none       -- the peer announced its block of that height (its tip is above)
   tmhp : Nat := 0                   -- maxHeightPrevoted of the announced block
   age : Option Nat := none          -- recent chains: current slot - slot of the requester's finalized block
+  extra : List Char := []           -- more connected peers (harness/c19/multipeer.go)
+  mainFail : Bool := false          -- the announcing peer fails the getLastBlock request of the peer selection
 
 def parseBehav (s : Scn) (w : List String) : Behav :=
   { cap := kv w "cap", stop := kv w "stop", badStatic := kv w "badstatic", badExec := kv w "badexec",
@@ -167,6 +177,7 @@ def parseBehav (s : Scn) (w : List String) : Behav :=
       | none => none,
     finPeak := (kv w "finpeak").getD 0,
     target := kv w "target", tmhp := (kv w "tmhp").getD 0, age := kv w "age",
+    extra := ((kvs w "extra").getD "").toList, mainFail := kvs w "main" == some "e",
     force := match kvs w "force" with
       | some "fast" => some .fast
       | some "block" => some .block
@@ -202,6 +213,30 @@ def applies (b : Behav) (c : List (Blk Id)) (x : Blk Id) : Bool :=
 def modeStr : Mode → String
   | .fast => "fast" | .block => "block" | .none => "none"
 
+/-- the connected peers of a block synchronisation: what each answers to getLastBlock during the peer
+selection (`none`: the request fails) and how it behaves afterwards -/
+def connectedPeers (s : Scn) (b : Behav) (target : Blk Id) : List (Option (Nat × Nat × Id) × Peer Id) :=
+  let tm := if b.target.isSome then b.tmhp else s.mhpP
+  let main := mkPeer s b
+  let hp := honest s.chainP s.mhpP
+  let tipP : Option (Nat × Nat × Id) := some (s.lenP, s.mhpP, s.pid s.lenP)
+  (if b.mainFail then none else some (target.height, tm, target.id), main) ::
+  b.extra.map fun k =>
+    match k with
+    | 'h' => (some (target.height, tm, target.id), main)
+    | 'l' => (some (s.fork, 0, s.pid s.fork), { hp with last := (s.chainP[s.fork]?).map (fun x => (x, 0)) })
+    | 'v' => (some (target.height, tm + 1000, mkId tagA target.height),
+              { main with last := some ({ target with id := mkId tagA target.height, ok := false }, tm + 1000) })
+    | 'c' => (tipP, { hp with common := fun _ => none })
+    | 'b' => (tipP, { hp with segment := fun _ => none })
+    | _ => (none, main)
+
+/-- `blockSyncer.Sync` with all connected peers (`Model.blockSyncPeers`; the scenarios are generated
+such that all possible choices of `getBestNodeInfo` behave alike: one map order / random value) -/
+def blockSyncMulti (s : Scn) (b : Behav) (target : Blk Id) : Out Id :=
+  let ps := connectedPeers s b target
+  blockSyncPeers (applies b) s.n s.finQ s.mhpQ s.chainQ ps ((answeringFrom 0 ps).map (·.id)) 0
+
 def runSync (s : Scn) (b : Behav) : String :=
   let q := s.chainQ
   let c := servedChain s b
@@ -214,9 +249,12 @@ def runSync (s : Scn) (b : Behav) : String :=
           (match b.age with | some a => shouldSync s.n (Int.ofNat a) 0 | none => true)
     let out : Out Id := if b.force.isNone && !target.ok then ⟨q, [], false, some .invalidBlock⟩ else match mode with
       | .fast => fastSync (applies b) (fun _ => b.finPeak) s.n s.finQ q target (mkPeer s b)
-      | .block => blockSync (applies b) s.n s.finQ s.mhpQ q
-          { peer := 0, height := target.height, mhp := (if b.target.isSome then b.tmhp else s.mhpP), id := target.id }
-          (mkPeer s b)
+      | .block =>
+        if b.extra.isEmpty && !b.mainFail then
+          blockSync (applies b) s.n s.finQ s.mhpQ q
+            { peer := 0, height := target.height, mhp := (if b.target.isSome then b.tmhp else s.mhpP), id := target.id }
+            (mkPeer s b)
+        else blockSyncMulti s b target
       | .none => ⟨q, [], false, none⟩
     let tip := match out.chain.getLast? with | some t => tokOf s t.id | none => "-"
     "mode=" ++ modeStr mode ++ " err=" ++ (if out.err.isSome then "1" else "0") ++ " tip=" ++ tip
@@ -230,24 +268,24 @@ def step (s : Scn) (w : List String) : Scn × String :=
                       n := (kv r "n").getD 1, finQ := (kv r "finQ").getD 0, mhpQ := (kv r "mhpQ").getD 0,
                       mhpP := (kv r "mhpP").getD 0 }
     (s', "ok")
-  | ["glb"] => (s, match handleLastBlock s.chainP with | some b => "tip " ++ tokOf s b.id | none => "none")
+  | ["glb"] => (s, match handleLastBlock s.resp with | some b => "tip " ++ tokOf s b.id | none => "none")
   | "hcb" :: toks =>
     (s, match parseToks s toks with
-      | some ids => hcbStr s (handleHighestCommon okLen s.chainP (some ids))
+      | some ids => hcbStr s (handleHighestCommon okLen s.resp (some ids))
       | none => "bad-op")
-  | ["hcbnil"] => (s, hcbStr s (handleHighestCommon okLen s.chainP none))
+  | ["hcbnil"] => (s, hcbStr s (handleHighestCommon okLen s.resp none))
   | ["hcbraw", hex] =>
     (s, match Hex.decode? hex with
-      | some data => hcbStr s (handleHighestCommon okLen s.chainP (decodeHcb data))
+      | some data => hcbStr s (handleHighestCommon okLen s.resp (decodeHcb data))
       | none => "bad-op")
   | ["bfi", tok] =>
     (s, match parseTok s tok with
-      | some i => bfiStr s (handleBlocksFromID okLen s.chainP (some i))
+      | some i => bfiStr s (handleBlocksFromID okLen s.resp (some i))
       | none => "bad-op")
-  | ["bfinil"] => (s, bfiStr s (handleBlocksFromID okLen s.chainP none))
+  | ["bfinil"] => (s, bfiStr s (handleBlocksFromID okLen s.resp none))
   | ["bfiraw", hex] =>
     (s, match Hex.decode? hex with
-      | some data => bfiStr s (handleBlocksFromID okLen s.chainP (decodeBfi data))
+      | some data => bfiStr s (handleBlocksFromID okLen s.resp (decodeBfi data))
       | none => "bad-op")
   | ["gap", a, b, c, d] =>
     (s, match a.toNat?, b.toNat?, c.toNat?, d.toNat? with
@@ -274,6 +312,30 @@ def step (s : Scn) (w : List String) : Scn × String :=
         let last := match d.1.getLast? with | some b => tokOf s b.id | none => "-"
         "dl n=" ++ toString d.1.length ++ " first=" ++ first ++ " last=" ++ last ++ " done=" ++ (if d.2 then "1" else "0")
       | _, _, _, _ => "bad-op")
+  | ["chain", what] =>
+    let c := s.resp
+    let tipStr (c : List (Blk Id)) : String :=
+      match c.getLast? with
+      | some t => "tip " ++ tokOf s t.id ++ " h=" ++ toString (c.length - 1)
+      | none => "refused"
+    (match what with
+      | "del" =>
+        if c.length ≤ 1 then (s, "refused")
+        else ({ s with cur := some c.dropLast }, tipStr c.dropLast)
+      | "p" =>
+        -- the next block of the original chain, when the current chain is a prefix of it
+        (match c.getLast?, s.chainP[c.length - 1]?, s.chainP[c.length]? with
+          | some t, some o, some nx =>
+            if t.id == o.id then ({ s with cur := some (c ++ [nx]) }, tipStr (c ++ [nx])) else (s, "refused")
+          | _, _, _ => (s, "refused"))
+      | "new" =>
+        (match c.getLast? with
+          | some t =>
+            let nb : Blk Id := { id := mkId tagS s.ctr, prev := t.id, height := c.length }
+            ({ s with cur := some (c ++ [nb]), ctr := s.ctr + 1 }, tipStr (c ++ [nb]))
+          | none => (s, "refused"))
+      | "restart" => ({ s with cur := some c }, tipStr c)
+      | _ => (s, "bad-op"))
   | "sfs" :: r =>
     (s, match kv r "h", kv r "n", kv r "gen" with
       | some h, some n, some g =>
